@@ -5,6 +5,7 @@ import (
 	"reflect"
 	"strings"
 
+	"github.com/freeconf/yang/fc"
 	"github.com/freeconf/yang/meta"
 	"github.com/freeconf/yang/val"
 )
@@ -54,10 +55,11 @@ func NewValues(m []meta.Leafable, objs ...interface{}) ([]val.Value, error) {
 }
 
 // Incoming value should be of appropriate type according to given data type format
-func NewValue(typ *meta.Type, v interface{}) (val.Value, error) {
+func NewValue(typ *meta.Type, v interface{}) (result val.Value, err error) {
 	defer func() {
 		if r := recover(); r != nil {
-			panic(fmt.Sprintf("%s : %s", typ.Ident(), r))
+			result = nil
+			err = fmt.Errorf("%w. %s : %v", fc.BadRequestError, typ.Ident(), r)
 		}
 	}()
 	if v == nil {
